@@ -1,5 +1,6 @@
 import Girc.Base.AMap
 import Girc.Base.GoLib
+import Girc.Base.GoSem
 /-
   Model of cap_tags.go: tag escaping, validTag, validTagValue, Tags.Set/Get/Bytes/writeTo, ParseTags.
 -/
@@ -7,8 +8,7 @@ namespace Girc.Model
 
 def maxTagLength : Nat := 4094
 
-/-- Go map `Tags`; `none` models the nil map. Values are kept in their escaped wire form. -/
-abbrev Tags := AMap Bytes
+-- `Tags` (Go map; `none` models the nil map) is declared in Girc/Base/GoSem.lean.
 
 /-- `tagEncoder.Replace`: a byte-wise replacer (all five old strings are single bytes). -/
 def tagEnc1 (b : Byte) : Bytes :=
